@@ -42,36 +42,35 @@ Case(op, impl, K, a, b, c, n, r, m, mask, rev, bs, poison) ==
     [op |-> op, impl |-> impl, K |-> K, a |-> a, b |-> b, c |-> c, n |-> n, r |-> r, m |-> m,
      mask |-> mask, rev |-> rev, bs |-> bs, poison |-> poison]
 
-ElemCases ==
-    UNION {{Case(op, "builtin", K, a, b, <<2, 0>>, n, 0, 0, 0, FALSE, 1, po) :
-                op \in {"axpby", "vmul"}, a \in Coefs(K), b \in Coefs(K), n \in 0..NMax, po \in BOOLEAN} : K \in Kinds}
-    \cup UNION {{Case("axpbypcz", "builtin", K, <<2, 0>>, b, c, n, 0, 0, 0, FALSE, 1, po) :
-                b \in Coefs(K), c \in Coefs(K), n \in 0..NMax, po \in BOOLEAN} : K \in Kinds}
-    \cup {Case(op, "builtin", K, SOne, SOne, SOne, n, 0, 0, 0, FALSE, 1, po) :
-                op \in {"copy", "clear"}, K \in Kinds, n \in 0..NMax, po \in BOOLEAN}
-    \cup {Case("inner", impl, K, SOne, SOne, SOne, n, 0, 0, 0, FALSE, bs, FALSE) :
-                impl \in {"serial", "parallel", "eigen"}, K \in Kinds, n \in 0..(NMax + 2), bs \in {1, 2, 4}}
+\* the case space, as existential choices (TLC enumerates them without building the set)
+ElemInit ==
+    \/ \E K \in Kinds : \E op \in {"axpby", "vmul"}, a \in Coefs(K), b \in Coefs(K), n \in 0..NMax, po \in BOOLEAN :
+            cs = Case(op, "builtin", K, a, b, <<2, 0>>, n, 0, 0, 0, FALSE, 1, po)
+    \/ \E K \in Kinds : \E b \in Coefs(K), c \in Coefs(K), n \in 0..NMax, po \in BOOLEAN :
+            cs = Case("axpbypcz", "builtin", K, <<2, 0>>, b, c, n, 0, 0, 0, FALSE, 1, po)
+    \/ \E op \in {"copy", "clear"}, K \in Kinds, n \in 0..NMax, po \in BOOLEAN :
+            cs = Case(op, "builtin", K, SOne, SOne, SOne, n, 0, 0, 0, FALSE, 1, po)
+    \/ \E impl \in {"serial", "parallel", "eigen"}, K \in Kinds, n \in 0..(NMax + 2), bs \in {1, 2, 4} :
+            cs = Case("inner", impl, K, SOne, SOne, SOne, n, 0, 0, 0, FALSE, bs, FALSE)
     \* lin_comb with n = 1..5 vectors (field n), vectors of length 2; alpha in b
-    \cup UNION {{Case("lincomb", "builtin", K, a, b, <<-1, 0>>, n, 0, 0, 0, FALSE, 1, po) :
-                a \in Coefs(K), b \in Coefs(K), n \in 1..5, po \in BOOLEAN} : K \in {KInt, KGauss, KBlk}}
+    \/ \E K \in {KInt, KGauss, KBlk} : \E a \in Coefs(K), b \in Coefs(K), n \in 1..5, po \in BOOLEAN :
+            cs = Case("lincomb", "builtin", K, a, b, <<-1, 0>>, n, 0, 0, 0, FALSE, 1, po)
 
-MatCases ==
-    UNION {UNION {{Case("spmv", impl, K, a, b, SOne, 0, r, m, mask, rev, 1, po) :
-                impl \in (IF K.b > 1 THEN {"builtin", "mixed"} ELSE {"builtin"}),
-                a \in Coefs(K), b \in CoefsReal,
-                mask \in Masks(r, m), rev \in (IF K = KInt THEN BOOLEAN ELSE {FALSE}), po \in BOOLEAN} :
-            K \in {KInt, KGauss, KBlk}} : r \in 1..(NMax - 1), m \in 1..NMax}
-    \cup UNION {UNION {{Case("residual", impl, K, SOne, SOne, SOne, 0, r, m, mask, rev, 1, po) :
-                impl \in (IF K.b > 1 THEN {"builtin", "mixed"} ELSE {"builtin"}),
-                mask \in Masks(r, m), rev \in (IF K = KInt THEN BOOLEAN ELSE {FALSE}), po \in BOOLEAN} :
-            K \in {KInt, KGauss, KBlk}} : r \in 1..(NMax - 1), m \in 1..NMax}
-    \cup UNION {{Case("spmv", "bcrs", KInt, a, b, SOne, 0, r, m, mask, FALSE, bs, po) :
-                a \in CoefsReal, b \in CoefsReal,
-                mask \in Masks(r, m), bs \in 1..BSMax, po \in BOOLEAN} : r \in 1..NMax, m \in 1..NMax}
-    \cup UNION {{Case("residual", "bcrs", KInt, SOne, SOne, SOne, 0, r, m, mask, FALSE, bs, po) :
-                mask \in Masks(r, m), bs \in 1..BSMax, po \in BOOLEAN} : r \in 1..NMax, m \in 1..NMax}
+MatInit ==
+    \/ \E r \in 1..(NMax - 1), m \in 1..NMax, K \in {KInt, KGauss, KBlk} :
+        \E impl \in (IF K.b > 1 THEN {"builtin", "mixed"} ELSE {"builtin"}), a \in Coefs(K), b \in CoefsReal,
+           mask \in Masks(r, m), rev \in (IF K = KInt THEN BOOLEAN ELSE {FALSE}), po \in BOOLEAN :
+            cs = Case("spmv", impl, K, a, b, SOne, 0, r, m, mask, rev, 1, po)
+    \/ \E r \in 1..(NMax - 1), m \in 1..NMax, K \in {KInt, KGauss, KBlk} :
+        \E impl \in (IF K.b > 1 THEN {"builtin", "mixed"} ELSE {"builtin"}),
+           mask \in Masks(r, m), rev \in (IF K = KInt THEN BOOLEAN ELSE {FALSE}), po \in BOOLEAN :
+            cs = Case("residual", impl, K, SOne, SOne, SOne, 0, r, m, mask, rev, 1, po)
+    \/ \E r \in 1..NMax, m \in 1..NMax : \E a \in CoefsReal, b \in CoefsReal, mask \in Masks(r, m), bs \in 1..BSMax, po \in BOOLEAN :
+            cs = Case("spmv", "bcrs", KInt, a, b, SOne, 0, r, m, mask, FALSE, bs, po)
+    \/ \E r \in 1..NMax, m \in 1..NMax : \E mask \in Masks(r, m), bs \in 1..BSMax, po \in BOOLEAN :
+            cs = Case("residual", "bcrs", KInt, SOne, SOne, SOne, 0, r, m, mask, FALSE, bs, po)
 
-Init == cs \in ElemCases \cup MatCases /\ pc = "in" /\ out = <<>>
+Init == (ElemInit \/ MatInit) /\ pc = "in" /\ out = <<>>
 
 \* ---- inputs of a case
 K0   == cs.K
